@@ -119,7 +119,7 @@ var catalogueTypes = []reflect.Type{
 	reflect.TypeOf(RegInt(0)), reflect.TypeOf(RegStr("")), reflect.TypeOf(RegPoint{}), reflect.TypeOf(RegNested{}),
 	reflect.TypeOf(WithUnexported{}), reflect.TypeOf(WithDeprecated{}), reflect.TypeOf(Wide{}),
 	reflect.TypeOf(WithAny{}), reflect.TypeOf(WithTime{}), reflect.TypeOf(WithPtrs{}), reflect.TypeOf(WithFunc{}),
-	reflect.TypeOf(time.Time{}),
+	reflect.TypeOf(time.Time{}), reflect.TypeOf(WithEmbedded{}),
 }
 
 var isRegistered = map[reflect.Type]bool{}
@@ -360,6 +360,12 @@ func randKeyType(r *rand.Rand, depth int) reflect.Type {
 		return reflect.TypeOf(MyString(""))
 	case 4:
 		return anyType
+	case 5:
+		// keys whose streams have different token counts: pointers to slices, arrays of interfaces
+		if r.Intn(2) == 0 {
+			return reflect.PtrTo(reflect.SliceOf(reflect.TypeOf(0)))
+		}
+		return reflect.ArrayOf(2, anyType)
 	default:
 		return scalarTypes[r.Intn(len(scalarTypes))]
 	}
